@@ -303,7 +303,7 @@ func (ex *executor) overlapStep(idx int, st *Step) {
 				clause = "overlap-destroyed"
 				what = "the stored tree is not what it was before the request plus what the requests acknowledged meanwhile did (" + strings.Join(did, "; ") + ")"
 			}
-			ex.finding(Violation{Prop: "C02", Clause: clause, Class: class, Msg: fmt.Sprintf("a stalled %s %s was answered %d after its body stream broke at byte %d of %d (%s); %s: %s (compared: expected -> found)",
+			ex.finding(Violation{Prop: "C02", Clause: clause, Class: class, Msg: fmt.Sprintf("a stalled %s %s was answered %d after its body stream had delivered %d of %d bytes (%s); %s: %s (compared: expected -> found)",
 				st.Method, st.Target, xa.Resp.Status, xa.Delivered, len(st.Body), faultKind(xa.BodyFault), what, d), Step: idx})
 		}
 	}
@@ -437,6 +437,14 @@ func (g *gen) overlapRound() {
 	a.Gate = 0
 	if f.At > 0 {
 		a.Gate = r.Intn(f.At + 1)
+	}
+	if r.Chance(0.2) {
+		// the slow client is only slow: after the stall the body arrives to
+		// its end. Whether the upload then still succeeds is the server's
+		// business (the world has changed under it); if it is refused, the
+		// refusal must leave what the others stored, and nothing else
+		a.Faults = nil
+		a.Gate = r.Intn(len(a.Body) + 1)
 	}
 	parent := model.Parent(x)
 	nb := 1 + r.Weighted([]int{5, 3, 2})
